@@ -256,7 +256,7 @@ def evaluate(case):
 
 def spaces(tier, seed):
     q = tier == 'quick'
-    words = WORDS_Q if q else WORDS_Q + [''.join(w) * 2 + 'aa' for w in itertools.product('abdn', repeat=4)][::8]
+    words = WORDS_Q if q else WORDS_Q + [''.join(w) * 2 + 'aa' for w in itertools.product('abdn', repeat=4)][::32]
     N = 80
     cp_kinds = [['cp_df', True, True, True]]
     cp_all = [['cp_df', a, b, c] for a in (True, False) for b in (True, False) for c in (True, False) if b or c]
